@@ -223,11 +223,17 @@ def e2e(c, root):
                 chosen.append((key, fp, origin, names))
         if not chosen:
             continue
-        for layout in ("flat", "nested"):
-            d = tempfile.mkdtemp(prefix="d_", dir=root)
+        for layout in ("flat", "nested", "under_hidden_parent"):
+            if layout == "under_hidden_parent":
+                # the directory that is loaded lies BELOW a hidden directory (~/.config/..., .worktrees/...): only names inside the loaded tree
+                # may decide anything
+                os.makedirs(os.path.join(root, ".projects", "node_modules"), exist_ok=True)
+                d = tempfile.mkdtemp(prefix="d_", dir=os.path.join(root, ".projects", "node_modules"))
+            else:
+                d = tempfile.mkdtemp(prefix="d_", dir=root)
             placed = []
             for i, (key, fp, origin, names) in enumerate(chosen):
-                sub = d if layout == "flat" else os.path.join(d, "z%d" % (len(chosen) - i), key)
+                sub = d if layout != "nested" else os.path.join(d, "z%d" % (len(chosen) - i), key)
                 os.makedirs(sub, exist_ok=True)
                 base = os.path.basename(fp)
                 target = os.path.join(sub, base)          # file names are kept: some formats (Rill, Hex, ...) name the model after the file
